@@ -51,7 +51,7 @@ type Opts struct {
 	NotAfter  time.Time
 	EKUs      []x509.ExtKeyUsage
 	OtherEKUs []asn1.ObjectIdentifier
-	Poison    string // "", "ok", "noncritical", "nonnull"
+	Poison    string // "", "ok", "noncritical", "nonnull", "nulltrailing", "nulltrailingtlv", "wrongtag", "longformnull", "empty" (the last five critical)
 	Extra     []pkix.Extension
 	Serial    int64
 	Subject   *pkix.Name // override (cross-signing reuses another node's subject)
@@ -62,6 +62,9 @@ type Opts struct {
 	// identifier, the authority\'s issuer name and serial number (OpenSSL\'s keyid,issuer:always form).
 	FullAKID bool
 	KeyUsage x509.KeyUsage // 0 = certSign|cRLSign for CAs, digitalSignature otherwise
+	// Unparsable tolerates a certificate the standard library's parser refuses (deliberately odd extensions that the
+	// repository's lax parser reports as non-fatal): Node.Cert stays nil, such a node cannot issue.
+	Unparsable bool
 }
 
 var (
@@ -159,6 +162,19 @@ func template(o Opts) *x509.Certificate {
 		t.ExtraExtensions = append(t.ExtraExtensions, pkix.Extension{Id: OIDPoison, Critical: false, Value: []byte{5, 0}})
 	case "nonnull":
 		t.ExtraExtensions = append(t.ExtraExtensions, pkix.Extension{Id: OIDPoison, Critical: true, Value: []byte{4, 1, 0}})
+	case "nulltrailing": // a well-formed NULL followed by one more byte
+		t.ExtraExtensions = append(t.ExtraExtensions, pkix.Extension{Id: OIDPoison, Critical: true, Value: []byte{5, 0, 0}})
+	case "nulltrailingtlv": // a well-formed NULL followed by a well-formed OCTET STRING
+		t.ExtraExtensions = append(t.ExtraExtensions, pkix.Extension{Id: OIDPoison, Critical: true, Value: []byte{5, 0, 4, 2, 0xca, 0xfe}})
+	case "wrongtag": // empty content under another tag
+		t.ExtraExtensions = append(t.ExtraExtensions, pkix.Extension{Id: OIDPoison, Critical: true, Value: []byte{4, 0}})
+	case "longformnull": // NULL with a non-minimal (BER) length
+		t.ExtraExtensions = append(t.ExtraExtensions, pkix.Extension{Id: OIDPoison, Critical: true, Value: []byte{5, 0x81, 0}})
+	case "empty": // no value at all
+		t.ExtraExtensions = append(t.ExtraExtensions, pkix.Extension{Id: OIDPoison, Critical: true, Value: []byte{}})
+	case "":
+	default:
+		panic("pki: unknown poison kind " + o.Poison)
 	}
 	t.ExtraExtensions = append(t.ExtraExtensions, o.Extra...)
 	return t
@@ -206,6 +222,10 @@ func (p *Node) Issue(o Opts) *Node {
 	der, err := x509.CreateCertificate(rand.Reader, t, parent, key.Public(), p.Key)
 	if err != nil {
 		panic(err)
+	}
+	if o.Unparsable {
+		c, _ := x509.ParseCertificate(der)
+		return &Node{Name: o.CN, Cert: c, DER: der, Key: key, Parent: p}
 	}
 	return finish(o.CN, der, key, p)
 }
